@@ -508,11 +508,11 @@ def shrink_case(case):
         c["dm"] = [["1" if i == j else "0" for j in range(n)] for i in range(n)]
         yield c
     for key, simple in (("beta", ["0", "1"]), ("alpha", ["1", "0", "1/2", "2"])):
-        for v in simple:
-            if case[key] != v:
-                c = dict(case)
-                c[key] = v
-                yield c
+        cur = simple.index(case[key]) if case[key] in simple else len(simple)
+        for v in simple[:cur]:
+            c = dict(case)
+            c[key] = v
+            yield c
     if any(x != "0" for p in case["points"] for x in p):
         for i, p in enumerate(case["points"]):
             for ax in range(3):
@@ -560,6 +560,7 @@ def run(rep, tier, seed, model, replay):
     spec = load_spec()
     trace, bad = trace_vs_spec(spec)
     EXTRA["trace"] = {"ok": bool(trace.get("ok")), "error": trace.get("error"),
+                      "level": trace.get("level"), "note": trace.get("note"),
                       "parameter_cases": len(trace.get("cases", [])),
                       "components_traced": sum(len(c[k]) for c in trace.get("cases", [])
                                                for k in ("stress", "force", "hess", "hess_symm")),
